@@ -12,6 +12,15 @@ theorem pres_miss {s s' : St} {a : Act} (hI : Inv s) (h : step .repaired s a = s
   | fire t0 =>
     simp only [step] at h
     (repeat' (split at h)) <;> (try cases h) <;> (simp only [St.setPc, St.setObj]; (have i_miss := hI.miss; have i_lockA := hI.lockA; grind [missDir, holdsStore, upd]))
+  | corrupt d =>
+    simp only [step] at h
+    (repeat' (split at h)) <;> (try cases h) <;> (simp only []; (have i_miss := hI.miss; have i_lockA := hI.lockA; grind [missDir, holdsStore, upd]))
+  | block d =>
+    simp only [step] at h
+    (repeat' (split at h)) <;> (try cases h) <;> (simp only []; (have i_miss := hI.miss; have i_lockA := hI.lockA; grind [missDir, holdsStore, upd]))
+  | repair d =>
+    simp only [step] at h
+    (repeat' (split at h)) <;> (try cases h) <;> (simp only []; (have i_miss := hI.miss; have i_lockA := hI.lockA; grind [missDir, holdsStore, upd]))
   | run t0 =>
     simp only [step] at h
     split at h
